@@ -9,7 +9,8 @@ import traceback
 
 from . import common, tlc
 
-PREFIXES = ["/", "/dav/", "/a/b/"]
+# the same mount points spelled with and without the trailing slash
+PREFIXES = ["/", "/dav/", "/a/b/", "/dav", "/a/b"]
 PRINCIPALS = ["/user/", "/user", "/users/me/", "/u/x/y/"]
 FLAGSEQS = [["defaults"], ["defaults", "none"], ["defaults", "defaults"], ["autocreate", "defaults"],
             ["defaults", "autocreate", "none"], ["autocreate"], ["defaults", "none", "defaults"],
@@ -51,7 +52,7 @@ def run(prop, tier, seed, replay=None):
                 picked.append((f, p, pr, (i + seed) % len(FLAGSEQS)))
             for f in ("aiohttp", "wsgi"):
                 for k in range(len(FLAGSEQS)):
-                    picked.append((f, PREFIXES[(k + 1) % 3], PRINCIPALS[k % 4], k))
+                    picked.append((f, PREFIXES[(k + 1) % len(PREFIXES)], PRINCIPALS[k % 4], k))
             combos = sorted(set(picked))
         jobs = [{"frontend": f, "prefix": p, "principal": pr, "flags": FLAGSEQS[k]} for (f, p, pr, k) in combos]
     with multiprocessing.get_context("fork").Pool(12) as pool:
